@@ -149,7 +149,7 @@ Definition guard_parts (vp : string) (e : node) : option (string * node) :=
 Definition mk_opt (base : node) : node := Node (K KOptChain 0 0) [Node (Bln true) []; base].
 
 (** Mark as optional again the link that uses the guarded temporary [t]:
-    [t.prop], [t(args)], or [t.call(o, args)] where [t := o.prop]. *)
+    [t.prop], [t(args)], or [t.call(o, args)] where [t := o.prop] or [t := o?.prop]. *)
 Fixpoint unguard (vp : string) (raw : list (string * node)) (t : string) (n : node) : node :=
   let is_t x := match is_temp_ident vp x with Some s => String.eqb s t | None => false end in
   match n with
@@ -174,6 +174,11 @@ Fixpoint unguard (vp : string) (raw : list (string * node)) (t : string) (n : no
               | Some (Node (K KMember mlo mhi) [recv; prop]) =>
                   if same_receiver vp recv this
                   then mk_opt (Node (K KCall lo hi) [cx; Node (K KMember mlo mhi) [this; prop]; Node Lst rest; targs])
+                  else generic
+              | Some (Node (K KOptChain _ _) [Node (Bln true) []; Node (K KMember mlo mhi) [recv; prop]]) =>
+                  (* [t := o?.prop]: the callee was itself an optional member access, [o?.prop?.(args)] *)
+                  if same_receiver vp recv this
+                  then mk_opt (Node (K KCall lo hi) [cx; mk_opt (Node (K KMember mlo mhi) [this; prop]); Node Lst rest; targs])
                   else generic
               | _ => generic
               end
